@@ -38,7 +38,10 @@ CFG = {
 
 
 def build():
-    return {"c": vlib.build_driver("config", ["config.c"], extra_flags=("-rdynamic",)),
+    # the plain (no sanitizer) builds let the allocator reuse released blocks, which ASan's quarantine prevents
+    return {"cp": vlib.build_driver("config_plain", ["config.c"], extra_flags=("-rdynamic",), san=False),
+            "cxxp": vlib.build_driver("config_cxx_plain", ["config_cxx.cpp"], libs=("mptcore", "mpt++"), cxx=True, san=False),
+            "c": vlib.build_driver("config", ["config.c"], extra_flags=("-rdynamic",)),
             "cxx": vlib.build_driver("config_cxx", ["config_cxx.cpp"], libs=("mptcore", "mpt++"), cxx=True)}
 
 
@@ -314,7 +317,7 @@ def binding_b(ck, exes, n, steps, nt):
     groups = {"global": ("c", "Trace_Config.cfg", []), "view": ("c", "Trace_Config_view.cfg", []),
               "cxx": ("cxx", "Trace_Config_items.cfg", [])}
     ok_long = {}
-    for label in groups:
+    for label in list(groups):
         ok_long[label], probe = long_values_work(exes, label)
         if not ok_long[label]:
             ck.violation(trace_signature(probe[1], label),
@@ -325,6 +328,9 @@ def binding_b(ck, exes, n, steps, nt):
         groups[mode][2].append(gen_store_history(rng, mode, steps, ok_long[mode]))
     for i in range(max(3, n // 3)):
         groups["global"][2].append(gen_path_history(rng, steps))
+    # the same histories once more on the builds without sanitizer
+    groups["cxx-plain"] = ("cxxp", "Trace_Config_items.cfg", groups["cxx"][2])
+    groups["global-plain"] = ("cp", "Trace_Config.cfg", groups["global"][2])
     total = okn = 0
     info = {}
     for label, (impl, tcfg, hists) in groups.items():
